@@ -225,7 +225,8 @@ func propC19(w *World, r *Report) {
 	r.Explanation = "Decided clause (memory safety, the mark census and the index normal forms — not their composition over all operation sequences): (Q1) every store to the position field has a value in [0, n-1] and every store to the mark in [-1, n-1], by interval arithmetic with x % n in [0, n-1] for x >= 0, under n >= 1; (Q2) every element index into the two frame slices is within [0, n-1] and every slice bound within [0, n] given Q1; (Q3) the stores to the mark are exactly {Reset: 0, SetAsOldest: position, Move: -1 exactly when the advanced position equals the mark}; (Q4) GetHistory returns the full history when unmarked, else its suffix of length ((position - mark + n) % n) + 1; (Q5) the full history is frames[0:n] when position = n-1, frames[0:next] when not yet wrapped, and frames[next:] followed by frames[:next] at offset n-next when wrapped (a rotation starting at the slot after the position); (Q6) Current = frames[position], CopyRecent = copy of frames[(position-1+n) % n] under the lock Move holds, Oldest = frames[mark] when marked else frames[next], Move advances by (position+1) % n and sets the wrapped flag at 0. Rule: exhaustive path enumeration of the loop-free methods with normalised terms + interval arithmetic over n."
 	r.RuleText = "obligation per (rule, method path / index site)"
 	r.Assumptions = []string{"capacity n >= 1 (quantifier of the property)",
-		"NOT decided: that these forms compose to the stated history for every operation sequence, and the one bound that needs the relational invariant (not wrapped => mark <= position): len(full) - historyLength >= 0 in GetHistory"}
+		"the slice bound len(full) - historyLength >= 0 in GetHistory follows from the inductive invariant (not wrapped => mark = -1 or mark <= position) of the update forms established by Q3-Q6 (Lemma R in DESIGN.md, a paper proof about the normal forms); it is not re-derived mechanically",
+		"NOT decided: that these forms compose to the stated history for every operation sequence beyond Lemma R"}
 	ri, err := resolveRing(w)
 	if err != nil {
 		r.Unknown("roles", "motion.FrameLoop", "-", err.Error())
@@ -499,7 +500,7 @@ func propC19(w *World, r *Report) {
 		}
 	}
 	r.Check(nIdx >= 8, "G4", "index sites found in the ring", "-", fmt.Sprint(nIdx))
-	r.Note("not decided: slice lower bound len(full)-historyLength >= 0 in GetHistory (needs the relational invariant 'not wrapped => mark <= position')")
+	r.Note("slice lower bound len(full)-historyLength >= 0 in GetHistory: by Lemma R (DESIGN.md) from the update forms Q3-Q6; not re-derived by the interval engine")
 	_ = FULL
 }
 
@@ -621,4 +622,46 @@ func checkRingHistoryForms(w *World, r *Report, rule string) {
 		}
 	}
 	r.Check(okF, rule, "ring full history: frames[0..position] before the first wrap, else the rotation frames[position+1..] ++ frames[..position]", w.Pos(ri.full.Pos()), strings.Join(fgot, " | "))
+}
+
+// checkRingMove: the ring advance every client of the ring relies on: position <- (position+1) % n, the
+// wrapped flag is set when the position returns to 0, the mark expires exactly when the advanced position
+// reaches it, all under the ring's lock.
+func checkRingMove(w *World, r *Report, rule string) {
+	ri, err := resolveRing(w)
+	if err != nil {
+		r.Unknown(rule, "motion.FrameLoop", "-", err.Error())
+		return
+	}
+	e := newTermEnv(w)
+	fn := ri.methods["Move"]
+	paths, complete := enumPaths(e, fn, 64)
+	next := "rem((" + ri.CUR + " + 1), " + ri.N + ")"
+	ok := complete && len(paths) == 4
+	var descr []string
+	for _, p := range paths {
+		st := map[int]string{}
+		for _, in := range p.Instrs {
+			if s, isSt := in.(*ssa.Store); isSt {
+				if fa, isFa := s.Addr.(*ssa.FieldAddr); isFa && isPtrTo(fa.X.Type(), ri.T) {
+					st[fa.Field] = p.Term(e, s.Val).String()
+				}
+			}
+		}
+		conds := guardStrings(p.Conds)
+		wrap := containsStr(conds, "eq(0, "+ri.CUR+")")
+		expire := containsStr(conds, eqStr(ri.CUR, ri.OLD))
+		wantFull, wantOld := "", ""
+		if wrap {
+			wantFull = "true"
+		}
+		if expire {
+			wantOld = "-1"
+		}
+		if st[ri.fCUR] != next || st[ri.fFULL] != wantFull || st[ri.fOLD] != wantOld {
+			ok = false
+		}
+		descr = append(descr, fmt.Sprintf("[%s] position<-%s wrapped<-%s mark<-%s", strings.Join(conds, " ∧ "), st[ri.fCUR], st[ri.fFULL], st[ri.fOLD]))
+	}
+	r.Check(ok, rule, "ring Move: position <- (position+1) % n; wrapped set at 0; the mark expires exactly when the advanced position reaches it", w.Pos(fn.Pos()), strings.Join(descr, " | "))
 }
